@@ -15,7 +15,7 @@ open Enc
 
 def dispatch (op : String) (args : List String) : Option (String × String × String) :=
   if op.startsWith "ascii." || op.startsWith "asmascii." then Driver.Ascii.handle op args
-  else if op == "proto.msgrewrite" then Driver.ProtoRewrite.handle op args
+  else if op == "proto.msgrewrite" || op == "proto.tmplrewrite" then Driver.ProtoRewrite.handle op args
   else if op.startsWith "proto." then Driver.Proto.handle op args
   else if op.startsWith "iso." then Driver.Iso.handle op args
   else if op.startsWith "thrift." then Driver.Thrift.handle op args
